@@ -64,6 +64,11 @@ var programs = []string{
 	"<% let g = fn() { return {z: note(1), m: note(2), a: note(3)} } %><%= g()[\"m\"] %>",
 	"<%= tag() %>|<%= tag({id: x}) %>|<%= tag() %>",
 	"<%= tagh() { %>b<% } %>|<%= tagh() %>",
+	// option hashes made of literals only, handed to callees that write into them
+	"<%= tag({id: 1}) %>|<%= tag({}) %>|<%= tag({id: 1, k: \"s\", t: true}) %>",
+	"<%= for (v) in xs { %><%= tag({a: 1, b: \"s\"}) %>,<% } %>",
+	"<% let bump = fn(o) { o[\"n\"] = o[\"n\"] + 1 return o[\"n\"] } %><%= bump({n: 1}) %>;<%= bump({n: 1}) %>",
+	"<% let h = {n: 1} %><% h[\"n\"] = x %><%= h[\"n\"] %>|<%= {n: 1}[\"n\"] %>",
 }
 
 // tag: a helper of the usual "fill in the defaults" kind: it writes into the options it was given
